@@ -400,7 +400,7 @@ class World(SessionWorld):
                 exp_marshal = [48, expect_id, wire, r.uri] + self.payload_tail(args, kwargs)
             elif kind == "publish":
                 r.uri = "com.example.topic.%s" % r.token
-                opt = ch.pick(("none", "ack", "ack+exclude", "noack+opts", "ack+retain"), "pubopt", (2, 4, 2, 1, 1))
+                opt = ch.pick(("none", "ack", "ack+exclude", "noack+opts", "ack+retain", "ack+empty-lists"), "pubopt", (2, 4, 2, 1, 1, 1.5))
                 wire = {}
                 o = None
                 if opt == "ack":
@@ -415,6 +415,10 @@ class World(SessionWorld):
                 elif opt == "ack+retain":
                     o = types.PublishOptions(acknowledge=True, retain=True)
                     wire = {"acknowledge": True, "retain": True}
+                elif opt == "ack+empty-lists":
+                    # an empty list is a value: "nobody is eligible" is the opposite of "no restriction"
+                    o = types.PublishOptions(acknowledge=True, eligible=[], exclude_authrole=[])
+                    wire = {"acknowledge": True, "eligible": [], "exclude_authrole": []}
                 r.opts = {"opt": opt, "ack": opt.startswith("ack")}
                 if o is not None:
                     fut = S.publish(r.uri, *args, options=o, **kwargs)
